@@ -452,9 +452,9 @@ struct Enc {
         head((uint32_t)(4 * vs.size()), type, DT_I32);
         for (int32_t v : vs) i32(v);
     }
-    void rec_r64(uint8_t type, std::initializer_list<double> vs, bool denorm) {
+    void rec_r64(uint8_t type, std::initializer_list<double> vs, int denorm, int zero_style = 0) {
         head((uint32_t)(8 * vs.size()), type, DT_R64);
-        for (double v : vs) u64(real8_encode(v, denorm));
+        for (double v : vs) u64(real8_encode(v, denorm, zero_style));
     }
     void rec_str(uint8_t type, const std::string& s) {
         std::string t = s;
@@ -491,6 +491,8 @@ Choices random_choices(sim::Rng& r) {
         c.lib_ts[6 * i + 5] = (uint16_t)r.range(0, 59);
     }
     c.str_ts_differs = r.chance(0.5);
+    c.denorm_depth = r.chance(0.5) ? 1 : (int)r.range(2, 13);
+    c.zero_style = r.chance(0.7) ? 0 : (int)r.range(1, 3);
     return c;
 }
 
@@ -502,6 +504,8 @@ J to_json(const Choices& c) {
     j.set("explicit_defaults", c.explicit_defaults);
     j.set("omit_zero_width", c.omit_zero_width);
     j.set("denorm_reals", c.denorm_reals);
+    j.set("denorm_depth", (int64_t)c.denorm_depth);
+    j.set("zero_style", (int64_t)c.zero_style);
     j.set("pad_after_endlib", c.pad_after_endlib);
     j.set("xy_split", c.xy_split);
     j.set("text_path_records", c.text_path_records);
@@ -523,6 +527,8 @@ Choices choices_from(const J& j) {
     c.explicit_defaults = j.getb("explicit_defaults");
     c.omit_zero_width = j.getb("omit_zero_width");
     c.denorm_reals = j.getb("denorm_reals");
+    c.denorm_depth = j.has("denorm_depth") ? (int)j.geti("denorm_depth") : 1;
+    c.zero_style = j.has("zero_style") ? (int)j.geti("zero_style") : 0;
     c.pad_after_endlib = j.getb("pad_after_endlib");
     c.xy_split = (int)j.geti("xy_split");
     c.text_path_records = j.getb("text_path_records");
@@ -555,7 +561,7 @@ std::vector<uint8_t> encode(const model::MLib& m, const Choices& c, bool* expect
         e.rec_i16(GENERATIONS, {3});
         unsupported = true;
     }
-    e.rec_r64(UNITS, {m.precision / m.unit, m.precision}, c.denorm_reals);
+    e.rec_r64(UNITS, {m.precision / m.unit, m.precision}, c.denorm_reals ? c.denorm_depth : 0);
     // min_first: smallest number of points in the first record of a list (a first record with a single point is
     // legal for a PATH too: the element is complete only at ENDEL)
     auto put_xy = [&](const std::vector<int32_t>& coords, size_t min_first) {
@@ -589,8 +595,8 @@ std::vector<uint8_t> encode(const model::MLib& m, const Choices& c, bool* expect
         bool nondefault = xrefl || mag != 1 || rot != 0;
         if (!nondefault && !c.explicit_defaults) return;
         e.rec_i16(STRANS, {(uint16_t)(xrefl ? 0x8000 : 0)}, DT_BITS);
-        if (mag != 1 || c.explicit_defaults) e.rec_r64(MAG, {mag}, c.denorm_reals);
-        if (rot != 0 || c.explicit_defaults) e.rec_r64(ANGLE, {rot}, c.denorm_reals);
+        if (mag != 1 || c.explicit_defaults) e.rec_r64(MAG, {mag}, c.denorm_reals ? c.denorm_depth : 0);
+        if (rot != 0 || c.explicit_defaults) e.rec_r64(ANGLE, {rot}, c.denorm_reals ? c.denorm_depth : 0, c.zero_style);
     };
     size_t ci = 0;
     for (auto& cell : m.cells) {
@@ -636,8 +642,9 @@ std::vector<uint8_t> encode(const model::MLib& m, const Choices& c, bool* expect
             if (!p.scale_width) w = -w;
             if (w != 0 || !c.omit_zero_width) e.rec_i32(WIDTH, {w});
             if (pt == 4) {
-                e.rec_i32(BGNEXTN, {grid(p.eu)});
-                e.rec_i32(ENDEXTN, {grid(p.ev)});
+                // each of the two is optional on its own; an absent one means zero
+                if (grid(p.eu) != 0 || c.explicit_defaults) e.rec_i32(BGNEXTN, {grid(p.eu)});
+                if (grid(p.ev) != 0 || c.explicit_defaults) e.rec_i32(ENDEXTN, {grid(p.ev)});
             }
             std::vector<int32_t> co;
             for (auto& q : p.spine) {
